@@ -177,7 +177,7 @@ def verdict(prop, root, evid):
     known = sorted(l.split(" -- ")[0] for l in p.stdout.splitlines() if l.startswith("KNOWN-FINDING"))
     viol = [l.strip() for l in p.stdout.splitlines() if l.startswith("  ") and " R-C" in l]
     err = [l for l in p.stdout.splitlines() if l.startswith("ANALYSIS-ERROR")]
-    return {"rc": p.returncode, "known": len(known), "viol": viol[:3], "err": err[:1]}
+    return {"rc": p.returncode, "known": len(known), "viol": viol[:12], "err": err[:1]}
 
 
 def run_variant(name):
@@ -217,7 +217,7 @@ def main(argv):
         print(f"variant {name:16s}: {len(res) - len(diffs)}/{len(res)} stable")
         for p, r in diffs:
             bad += 1
-            print(f"   {p}: rc {base[p]['rc']}->{r['rc']} known {base[p]['known']}->{r['known']} {(r['viol'] or r['err'])[:1]}")
+            print(f"   {p}: rc {base[p]['rc']}->{r['rc']} known {base[p]['known']}->{r['known']} {(r["viol"] or r["err"])}")
     print(f"neutral-variant self-test: {len(results) - 1} variants x 20 properties, {bad} verdict changes")
     return 1 if bad else 0
 
